@@ -344,6 +344,55 @@ def run_classmethods(res, seed):
                 cls = getattr(vector, f"VectorObject{dim}D")
                 if hasattr(cls, oname):
                     res.violation("C06/classmethod-of-another-dimension-present", {"cls": cls.__name__, "method": oname})
+    # ---- structured dtypes that are not packed in field order (explicit offsets, padding, multi-field selections)
+    for system in R.ALL_SYSTEMS:
+        dim = len(system) + 1
+        for mom in (False, True):
+            names = B.names_for(system, mom, r.randrange(3))
+            if mom and not any(n in B.GENERIC_OF for n in names):
+                continue
+            k = len(names)
+            cols = {n: numpy.array([float(gen.dyadic(r, 0.25, 3)) + i for _ in range(3)]) for i, n in enumerate(names)}
+            layouts = {
+                "reversed-offsets": numpy.dtype({"names": list(names), "formats": [numpy.float64] * k, "offsets": [8 * (k - 1 - i) for i in range(k)]}),
+                "padded": numpy.dtype({"names": list(names), "formats": [numpy.float64] * k, "offsets": [16 * i + 8 for i in range(k)], "itemsize": 16 * k + 8}),
+                "mixed-sizes-aligned": numpy.dtype([(n, numpy.float32 if i % 2 else numpy.float64) for i, n in enumerate(names)], align=True),
+            }
+            wide = numpy.dtype([("pad0", numpy.int8)] + [(n, numpy.float64) for n in reversed(names)] + [("tail", numpy.int16)])
+            for lname, dt in list(layouts.items()) + [("multi-field-selection", None)]:
+                res.evaluations += 1
+                try:
+                    if dt is None:
+                        full = numpy.zeros(3, dtype=wide)
+                        for n in names:
+                            full[n] = cols[n]
+                        src = full[list(names)]
+                        forms = {"array(view)": lambda: vector.array(src)}
+                    else:
+                        src = numpy.zeros(3, dtype=dt)
+                        for n in names:
+                            src[n] = cols[n]
+                        recs = [tuple(float(cols[n][i]) for n in names) for i in range(3)]
+                        forms = {"array(structured)": lambda: vector.array(src), "array(list, dtype=)": lambda: vector.array(recs, dtype=dt)}
+                    for fname, f in forms.items():
+                        out = f()
+                        _, gsys, gcols, gmom, n_ = B.stored_columns(out)
+                        want = classify(tuple(names))
+                        if want is None or gsys != want[0] or gmom != want[1]:
+                            res.violation(f"C06/non-packed-dtype-wrong-class-or-system layout={lname}", {"names": names, "got": type(out).__name__})
+                            continue
+                        byg = {B.GENERIC_OF.get(n, n): n for n in names}
+                        for cn, col in zip(R.field_names(gsys), gcols):
+                            exp = cols[byg[cn]]
+                            if lname == "mixed-sizes-aligned":
+                                exp = exp.astype(src.dtype[byg[cn]])
+                            if [float(x) for x in col] != [float(x) for x in exp]:
+                                res.violation(f"C06/non-packed-dtype-values-not-stored-verbatim layout={lname} form={fname}",
+                                              {"names": names, "coordinate": cn, "stored": [float(x) for x in col], "given": [float(x) for x in exp]})
+                                break
+                    res.cell("dtype-layout", lname, "+".join(names))
+                except Exception as e:
+                    res.violation(f"C06/non-packed-dtype-rejected layout={lname}", {"names": names, "exc": f"{type(e).__name__}: {e}"[:200]})
     if vector.arr is not vector.array or vector.awk is not vector.Array:
         res.violation("C06/module-alias-differs", {"arr": repr(vector.arr), "awk": repr(vector.awk)})
     res.cell("aliases", "arr/awk")
